@@ -61,7 +61,7 @@ pub trait ProbeDrive: Send + Sync {
 
 #[derive(Default)]
 pub struct WorldRt {
-    pub subscribe: Option<Box<dyn Fn(u8)>>,
+    pub subscribe: Option<Rc<dyn Fn(u8)>>,
     pub probes: Vec<Option<Arc<dyn ProbeDrive>>>,
     pub puppets: Vec<Option<Arc<dyn PuppetDrive>>>,
     pub nursery: Option<crate::nursery::MockNursery>,
@@ -476,6 +476,18 @@ impl<T: Send + Sync + 'static> Probe<T> {
                     }
                 }
             }
+            if cfg.cross_act && ex.cross_depth == 0 {
+                // the handler of one subscription's sink may synchronously drive another subscription
+                for (q, qs) in ex.probes.iter().enumerate() {
+                    if q != p as usize && qs.can_act() && cfg.probe_pull {
+                        menu.push(opt::PULL_OTHER0 + q as u8);
+                    }
+                }
+                let nsub = ex.probes.iter().filter(|x| x.subscribed).count();
+                if nsub < cfg.max_probes as usize {
+                    menu.push(opt::SUBSCRIBE_NEXT);
+                }
+            }
             menu
         });
         if menu.len() < 2 {
@@ -486,6 +498,26 @@ impl<T: Send + Sync + 'static> Probe<T> {
             c if (opt::DISPOSE_OTHER0..opt::DISPOSE_OTHER0 + 6).contains(&c) => {
                 if let Some(d) = probe_driver(c - opt::DISPOSE_OTHER0) {
                     d.act(opt::TERM);
+                }
+            },
+            c if (opt::PULL_OTHER0..opt::PULL_OTHER0 + 6).contains(&c) => {
+                if let Some(d) = probe_driver(c - opt::PULL_OTHER0) {
+                    with(|ex| ex.cross_depth += 1);
+                    d.act(opt::PULL);
+                    with(|ex| ex.cross_depth -= 1);
+                }
+            },
+            opt::SUBSCRIBE_NEXT => {
+                let q = with(|ex| ex.probes.iter().filter(|x| x.subscribed).count()) as u8;
+                let f = world().borrow().subscribe.clone();
+                if let Some(f) = f {
+                    // a nested subscription: framed as "probe q sends Handshake" so that everything
+                    // it creates is owned by subscription q
+                    with(|ex| ex.cross_depth += 1);
+                    rec(Ev::Send(Actor::Probe(q), M::Hs));
+                    f(q);
+                    rec(Ev::Ret(Actor::Probe(q)));
+                    with(|ex| ex.cross_depth -= 1);
                 }
             },
             opt::PULL => {
